@@ -171,7 +171,17 @@ def g2(prog, ctx):
     if not oknov:
         ctx.fail("G2", ce, ce._qualname, "novel loop", "novel models are filtered or altered when building the extended storage")
     else:
-        ctx.ok("G2", "%s:%d" % (TP, nov_loops[0].lineno), "every novel model appended unchanged (%d return paths)" % len(nov_loops))
+        ctx.ok("G2", "%s:%d" % (TP, nov_loops[0].lineno), "every novel model appended unchanged (%d loops)" % len(nov_loops))
+    # ... on EVERY return path (e.g. also for a chromosome without annotated genes)
+    for p in flow.paths(ce):
+        if p.exit != "return" or not isinstance(p.exit_node, ast.Return) or p.exit_node.value is None:
+            continue
+        passed = any(isinstance(s_, ast.For) and any(s_ is l for l in nov_loops) for s_ in p.stmts())
+        if not passed:
+            ctx.fail("G2", p.exit_node, ce._qualname, src(p.exit_node), "on this path the extended storage is returned without the novel "
+                     "models: transcripts printed to transcript_models.gtf are missing from extended_annotation.gtf", path=p.describe())
+        else:
+            ctx.ok("G2", "%s:%d" % (TP, p.exit_node.lineno), "return path includes all novel models (%s)" % p.describe()[:60])
     # the novel models handed over are exactly the non-known models printed to transcript_models.gtf
     cm = prog.func("src/dataset_processor.py", "construct_models_in_parallel")
     nm = [st for st in walk_no_nested(cm) if isinstance(st, ast.Expr) and "novel_model_storage.append(" in src(st)]
@@ -264,7 +274,39 @@ def g3(prog, ctx):
     ctx.extra["g3_sites"] = ["%s:%d %s %s" % (m.rel, n.lineno, q, kind) for m, q, f, n, (kind, t) in sites]
 
 
+def g4(prog, ctx):
+    """Genes are merged only when their strands are equal: a positive score requires known-equal strands."""
+    f = prog.func(GMC, "TranscriptToGeneJoiner.count_score")
+    n = 0
+    for r in walk_no_nested(f):
+        if not isinstance(r, ast.Return) or r.value is None:
+            continue
+        if isinstance(r.value, ast.Constant) and r.value.value == 0:
+            continue
+        n += 1
+        facts = flow.guard_facts(r, stop=f)
+        equal = False
+        for t, p in facts:
+            if isinstance(t, ast.Compare) and len(t.ops) == 1 and "gene_strands" in src(t.left) and "gene_strands" in src(t.comparators[0]):
+                if (isinstance(t.ops[0], ast.NotEq) and not p) or (isinstance(t.ops[0], ast.Eq) and p):
+                    equal = True
+        if not equal:
+            ctx.fail("G4", r, f._qualname, src(r)[:80], "a positive gene-merging score can be returned for genes whose strands are not known "
+                     "to be equal: the merged gene record then carries a strand that differs from some of its transcripts")
+        else:
+            ctx.ok("G4", "%s:%d" % (GMC, r.lineno), "non-zero merge score only when the two gene strands are equal")
+    ctx.floor("G4", "non-zero returns of count_score", n, 1)
+    # merging happens only above a positive threshold
+    j = prog.func(GMC, "TranscriptToGeneJoiner.join_transcripts")
+    if not any(isinstance(x, ast.Compare) and "self.scores[best_gene_pair]" in src(x.left) and isinstance(x.ops[0], ast.Lt) for x in walk_no_nested(j)):
+        ctx.fail("G4", j, j._qualname, "threshold", "join_transcripts no longer stops at a positive score threshold")
+    else:
+        ctx.ok("G4", "%s:%d" % (GMC, j.lineno), "genes merged only for scores above a positive threshold")
+
+
 def run(prog, ctx):
+    ctx.rule("G4", "TranscriptToGeneJoiner.count_score returns a non-zero score only under the fact that both gene strands are equal; "
+                   "join_transcripts merges only above a positive threshold")
     ctx.rule("G1", "GFFPrinter.dump registers a model for printing only on a path where validate_exons(model.exon_blocks) passed; "
                    "transcript/exon lines are written only inside the loop over registered indices; nothing else writes the GTF handle")
     ctx.rule("G2", "TranscriptModelType.known is assigned only in TranscriptModel.from_reference_transcript, whose exons/strand/gene/id "
@@ -275,4 +317,5 @@ def run(prog, ctx):
     g1(prog, ctx)
     g2(prog, ctx)
     g3(prog, ctx)
+    g4(prog, ctx)
     ctx.assume("sortedness / non-overlap / chromosome bounds of novel exons, 'appears once', gene containment are value-level and not decided")
